@@ -16,7 +16,6 @@ import os
 import re
 import shutil
 import subprocess
-import sys
 import tempfile
 
 VERIF = os.path.dirname(os.path.dirname(os.path.abspath(__file__)))
